@@ -1,4 +1,4 @@
-import os, sys; ROOT = os.environ.get("JOBLIB_ROOT", "/tmp/wt_s2"); sys.path.insert(0, ROOT); os.environ["PYTHONPATH"] = ROOT + os.pathsep + os.environ.get("PYTHONPATH", "")
+import os, sys; ROOT = os.environ.get("JOBLIB_ROOT", "/repo"); sys.path.insert(0, ROOT); os.environ["PYTHONPATH"] = ROOT + os.pathsep + os.environ.get("PYTHONPATH", "")
 """Unchanged tree, C06 (every call the plain function accepts is accepted by
 the cached wrapper): with the default verbosity (Memory(location), verbose=1)
 a cache miss prints format_call(func, args, kwargs), which formats every
